@@ -201,17 +201,19 @@ Section Run.
       cbn [rret grun] in H. injection H as _ <-. cbn [length]. f_equal. eapply IH. exact Hr.
   Qed.
 
-  Lemma read_streams_length : forall sizes streams s s' l,
-    grun step (read_streams sizes streams) s = (s', Ok l) -> length sizes = length streams ->
+  Lemma read_streams_length : forall proto sizes streams s s' l,
+    grun step (read_streams proto sizes streams) s = (s', Ok l) -> length sizes = length streams ->
+    length proto = length streams ->
     length l = length streams.
   Proof.
-    induction sizes as [|sz sizes IH]; intros streams s s' l H Hlen; destruct streams as [|st streams];
+    induction proto as [|t proto IH]; intros sizes streams s s' l H Hlen Hlp;
+      destruct sizes as [|sz sizes]; destruct streams as [|st streams];
       try discriminate; cbn [read_streams] in H.
     - cbn [rret grun] in H. injection H as _ <-. reflexivity.
     - apply grun_bind_ok in H. destruct H as (s1 & data & _ & H).
       apply grun_bind_ok in H. destruct H as (s2 & st' & _ & H).
       apply grun_bind_ok in H. destruct H as (s3 & r & Hr & H).
-      cbn [rret grun] in H. injection H as _ <-. cbn [length] in *. f_equal. eapply IH; [exact Hr|lia].
+      cbn [rret grun] in H. injection H as _ <-. cbn [length] in *. f_equal. eapply IH; [exact Hr|lia|lia].
   Qed.
 
   Lemma advance_wf q s s' q' : grun step (qr_advance q) s = (s', Ok q') -> qr_wf q ->
@@ -234,7 +236,7 @@ Section Run.
       cbn [rret grun] in H2. injection H2 as _ <-. cbn [q_proto q_streams q_queues].
       rewrite grun_rlift in Hp. injection Hp as _ Hp.
       pose proof (read_sizes_length _ _ _ _ Hs) as HL1.
-      pose proof (read_streams_length _ _ _ _ _ Hst ltac:(lia)) as HL2.
+      pose proof (read_streams_length _ _ _ _ _ _ Hst ltac:(lia) ltac:(lia)) as HL2.
       assert (HL4 : length streams = length (q_proto q)) by lia.
       destruct (parse_streams_typed _ _ _ _ _ HL4 HF Hp) as [HL3 HT].
       split; [split; assumption|reflexivity].
